@@ -8,6 +8,10 @@
 //!       few hundred states per run the REAL `load_state` of an in-process `CommandHub` (hub lab
 //!       of C09, scripted workers acknowledging everything), read back through the real
 //!       `SaveState`,
+//!       plus the history "SaveState(P); configuration shrinks / grows / becomes empty (commands sent
+//!       to the hub); SaveState(P) again" with 2-4 saves on the SAME path: after each save the file
+//!       must be exactly the requests of the current configuration (whole-file parse, no trailing
+//!       byte) and `LoadState(P)` into a fresh hub must succeed and reproduce it,
 //!   (c) `write_initial_state_to_file` -> `read_initial_state_from_file` -> dispatch,
 //!   (d) `serde_json` of `sozu::command::upgrade::UpgradeData { state: S, .. }` and back.
 //! Oracle: no replayed command is rejected and the result equals S on every configuration map
@@ -739,6 +743,9 @@ fn build_case(ctx: &Ctx, case: u64, rng: &mut Rng) -> (&'static str, ConfigState
 }
 
 fn run_case(ctx: &Ctx, case: u64, rep: &mut Report) {
+    if case >= OVERWRITE_BASE {
+        return run_overwrite_case(ctx, case, rep);
+    }
     if case >= HUB_BASE {
         return run_hub_case(ctx, case, rep);
     }
@@ -1086,12 +1093,465 @@ fn run_hub_case(ctx: &Ctx, case: u64, rep: &mut Report) {
     }
 }
 
+// ---------------------------------------------------------------- repeated saves to one path
+
+/// hub cases of the second kind: `SaveState(P)` several times on the SAME path while the
+/// configuration of the (real, in-process) main process shrinks and grows
+pub const OVERWRITE_BASE: u64 = HUB_BASE + (1 << 36);
+
+/// a real `CommandHub` whose scripted workers acknowledge everything
+struct AckHub {
+    lab: crate::c09_hub::HubLab,
+    stop: std::sync::Arc<std::sync::atomic::AtomicBool>,
+    acked: std::sync::Arc<std::sync::atomic::AtomicU64>,
+    handles: Vec<std::thread::JoinHandle<()>>,
+}
+
+impl AckHub {
+    fn start(ctx: &Ctx, n_workers: usize) -> Result<AckHub, String> {
+        use std::sync::{Arc, atomic::{AtomicBool, AtomicU64, Ordering}};
+        use std::time::{Duration, Instant};
+        use sozu_command_lib::proto::command::WorkerResponse;
+        use crate::c09_hub::{HubLab, Recv};
+        let mut lab = HubLab::start_with(&ctx.root, n_workers, 10, |_| {}, |_| {})?;
+        let stop = Arc::new(AtomicBool::new(false));
+        let acked = Arc::new(AtomicU64::new(0));
+        let mut handles = Vec::new();
+        for mut w in lab.take_workers() {
+            let stop = stop.clone();
+            let acked = acked.clone();
+            handles.push(std::thread::spawn(move || {
+                loop {
+                    match w.recv_until(Instant::now() + Duration::from_millis(100)) {
+                        Recv::Msg(m) => {
+                            if w.send(&WorkerResponse::ok(m.id)).is_err() {
+                                break;
+                            }
+                            acked.fetch_add(1, Ordering::Relaxed);
+                        }
+                        Recv::Timeout => {
+                            if stop.load(Ordering::SeqCst) {
+                                break;
+                            }
+                        }
+                        Recv::Closed | Recv::Error(_) => break,
+                    }
+                }
+                w.close();
+            }));
+        }
+        Ok(AckHub { lab, stop, acked, handles })
+    }
+
+    /// stop the workers and the hub; panics of the hub thread
+    fn finish(mut self) -> Vec<crate::common::PanicRec> {
+        self.stop.store(true, std::sync::atomic::Ordering::SeqCst);
+        for h in self.handles.drain(..) {
+            let _ = h.join();
+        }
+        self.lab.shutdown().panics
+    }
+}
+
+/// final answer (status, message) of one request; Err = harness-side problem
+fn hub_request(client: &mut crate::c09_hub::HubClient, r: RequestType) -> Result<(i32, String), String> {
+    match client.request(r, std::time::Duration::from_secs(30)) {
+        Err(e) => Err(e),
+        Ok((_, None)) => Err("no final answer within 30 s".to_owned()),
+        Ok((_, Some(fin))) => Ok((fin.status, fin.message)),
+    }
+}
+
+/// removal commands for a share `keep_out_of_6`/6 ... of the objects of `s` (6 = remove all)
+fn removal_commands(s: &ConfigState, rng: &mut Rng, remove_out_of_6: u64) -> Vec<cops::Cmd> {
+    use sozu_command_lib::proto::command::{RemoveBackend, RemoveCertificate, RemoveListener};
+    let mut v: Vec<cops::Cmd> = Vec::new();
+    let mut take = |rng: &mut Rng| rng.below(6) < remove_out_of_6;
+    let c = |t: RequestType, l: &str| (req(t), l.to_owned());
+    for id in s.clusters.keys() {
+        if take(rng) { v.push(c(RequestType::RemoveCluster(id.clone()), "RemoveCluster/existing")); }
+    }
+    for b in s.backends.values().flatten() {
+        if take(rng) { v.push(c(RequestType::RemoveBackend(RemoveBackend { cluster_id: b.cluster_id.clone(), backend_id: b.backend_id.clone(), address: b.address.into() }), "RemoveBackend/existing")); }
+    }
+    let mut certs: Vec<(std::net::SocketAddr, String)> = s.certificates.iter().flat_map(|(a, m)| m.keys().map(move |fp| (*a, fp.to_string()))).collect();
+    certs.sort();
+    for (a, fp) in certs {
+        if take(rng) { v.push(c(RequestType::RemoveCertificate(RemoveCertificate { address: a.into(), fingerprint: fp }), "RemoveCertificate/existing")); }
+    }
+    for f in s.http_fronts.values() {
+        if take(rng) { v.push(c(RequestType::RemoveHttpFrontend(f.clone().into()), "RemoveHttpFrontend/existing")); }
+    }
+    for f in s.https_fronts.values() {
+        if take(rng) { v.push(c(RequestType::RemoveHttpsFrontend(f.clone().into()), "RemoveHttpsFrontend/existing")); }
+    }
+    let mut tcp: Vec<_> = s.tcp_fronts.values().flatten().cloned().collect();
+    tcp.sort();
+    for f in tcp {
+        if take(rng) { v.push(c(RequestType::RemoveTcpFrontend(f.into()), "RemoveTcpFrontend/existing")); }
+    }
+    let mut udp: Vec<_> = s.udp_fronts.values().flatten().cloned().collect();
+    udp.sort();
+    for f in udp {
+        if take(rng) { v.push(c(RequestType::RemoveUdpFrontend(f.into()), "RemoveUdpFrontend/existing")); }
+    }
+    for (kind, addrs) in cops::KINDS.iter().map(|k| (*k, cops::listener_addrs(s, *k))) {
+        for a in addrs {
+            if take(rng) { v.push(c(RequestType::RemoveListener(RemoveListener { address: a.into(), proxy: kind as i32 }), "RemoveListener/existing")); }
+        }
+    }
+    v
+}
+
+fn is_config_verb(r: &Request) -> bool {
+    matches!(
+        r.request_type,
+        Some(
+            RequestType::AddCluster(_) | RequestType::RemoveCluster(_) | RequestType::AddBackend(_) | RequestType::RemoveBackend(_)
+                | RequestType::AddCertificate(_) | RequestType::RemoveCertificate(_) | RequestType::ReplaceCertificate(_)
+                | RequestType::AddHttpFrontend(_) | RequestType::RemoveHttpFrontend(_) | RequestType::AddHttpsFrontend(_) | RequestType::RemoveHttpsFrontend(_)
+                | RequestType::AddTcpFrontend(_) | RequestType::RemoveTcpFrontend(_) | RequestType::AddUdpFrontend(_) | RequestType::RemoveUdpFrontend(_)
+                | RequestType::AddHttpListener(_) | RequestType::AddHttpsListener(_) | RequestType::AddTcpListener(_) | RequestType::AddUdpListener(_)
+                | RequestType::RemoveListener(_) | RequestType::SetHealthCheck(_) | RequestType::RemoveHealthCheck(_)
+                | RequestType::ActivateListener(_) | RequestType::DeactivateListener(_) | RequestType::UpdateHttpListener(_)
+                | RequestType::UpdateHttpsListener(_) | RequestType::UpdateTcpListener(_) | RequestType::UpdateUdpListener(_)
+        )
+    )
+}
+
+/// serialized length of the state file of `s` (what a save of exactly this state writes)
+fn expected_file_len(s: &ConfigState) -> usize {
+    s.produce_initial_state()
+        .requests
+        .iter()
+        .map(|w| serde_json::to_string(w).map(|t| t.len()).unwrap_or(0) + 2)
+        .sum()
+}
+
+fn content_multiset<'a>(reqs: impl Iterator<Item = &'a WorkerRequest>) -> Vec<String> {
+    let mut v: Vec<String> = reqs.map(|w| format!("{:?}", w.content)).collect();
+    v.sort();
+    v
+}
+
+fn run_overwrite_case(ctx: &Ctx, case: u64, rep: &mut Report) {
+    use sozu_command_lib::proto::command::ResponseStatus;
+    let fx = fixtures();
+    let mut rng = Rng::for_case(ctx.seed, 56, case);
+    rep.obs("hub:overwrite_cases", 1);
+    let ok_status = ResponseStatus::Ok as i32;
+
+    // plan: sizes of the successive configurations, as shares of removal / growth
+    // 0 = shrink a little, 1 = shrink a lot, 2 = empty, 3 = grow
+    let rounds = rng.urange(2, 4);
+    let mut plan: Vec<u8> = Vec::new();
+    for r in 1..rounds {
+        plan.push(match rng.below(8) {
+            0 | 1 => 0,
+            2 | 3 | 4 => 1,
+            5 => 2,
+            _ => if r == 1 { 1 } else { 3 },
+        });
+    }
+    // a first configuration worth shrinking
+    let mut model = ConfigState::new();
+    let mut ops: Vec<Op> = Vec::new();
+    {
+        let n = rng.urange(20, ctx.tier.pick(70, 140));
+        let density = 1 + rng.below(2);
+        let mut g = G::new(&mut rng, density);
+        g.oddities = false;
+        extend_history(&mut g, &mut model, &mut ops, n, fx);
+        let extra = g.rng.urange(3, 25);
+        for i in 0..extra {
+            let id = format!("x{i:03}");
+            let c = g.cluster(id.clone(), 0);
+            apply(&mut model, (req(RequestType::AddCluster(c)), "AddCluster".to_owned()), &mut ops);
+            let mut b = g.backend();
+            b.cluster_id = id;
+            apply(&mut model, (req(RequestType::AddBackend(b)), "AddBackend".to_owned()), &mut ops);
+        }
+        let n_certs = g.rng.urange(1, 4);
+        for _ in 0..n_certs {
+            let a = g.front_addr();
+            let c = g.cert(&fx.certs, 1);
+            apply(&mut model, (req(RequestType::AddCertificate(AddCertificate { address: a, certificate: c, expired_at: None })), "AddCertificate".to_owned()), &mut ops);
+        }
+    }
+    let mut steps_log: Vec<Value> = Vec::new();
+    let witness = |steps: &Vec<Value>, extra: Value| json!({"case": case, "seed": ctx.seed, "kind": "hub_overwrite", "path": "hub_state_file", "plan": plan, "rounds": steps, "detail": extra});
+
+    let hub = match AckHub::start(ctx, 1) {
+        Ok(h) => h,
+        Err(e) => {
+            rep.inconclusive(&format!("hub lab did not start: {}", e.chars().take(60).collect::<String>()));
+            rep.case(case, false);
+            return;
+        }
+    };
+    let path = hub.lab.run_dir.join("saved-state.json");
+    let path_s = path.to_string_lossy().into_owned();
+    let seed_file = hub.lab.run_dir.join("first-configuration.json");
+    let mut trouble: Option<String> = None;
+    let mut client = match hub.lab.client() {
+        Ok(c) => Some(c),
+        Err(e) => {
+            trouble = Some(format!("client: {e}"));
+            None
+        }
+    };
+    let mut prev_expected_len: Option<usize> = None;
+    let mut max_prev_file_len = 0usize;
+    let mut judged_any = false;
+    'rounds: for round in 0..rounds {
+        let Some(client) = client.as_mut() else { break };
+        // ---- bring the main process to the configuration of this round
+        if round == 0 {
+            let w = File::create(&seed_file).map_err(|e| e.to_string()).and_then(|mut f| model.write_requests_to_file(&mut f).map_err(|e| e.to_string()));
+            if let Err(e) = w {
+                trouble = Some(format!("cannot write the first configuration: {e}"));
+                break;
+            }
+            match hub_request(client, RequestType::LoadState(seed_file.to_string_lossy().into_owned())) {
+                Ok((st, _)) if st == ok_status => {}
+                Ok((_, m)) => {
+                    trouble = Some(format!("initial LoadState failed: {m}"));
+                    break;
+                }
+                Err(e) => {
+                    trouble = Some(format!("initial LoadState: {e}"));
+                    break;
+                }
+            }
+            // the replay of a state drops its empty buckets and resolves nothing else
+            model = replay(model.produce_initial_state().requests.iter().map(|w| &w.content)).state;
+        } else {
+            let kind = plan[round - 1];
+            let cmds: Vec<cops::Cmd> = match kind {
+                0 => removal_commands(&model, &mut rng, 2),
+                1 => removal_commands(&model, &mut rng, 5),
+                2 => removal_commands(&model, &mut rng, 6),
+                _ => {
+                    let mut scratch = model.clone();
+                    let mut scratch_ops = Vec::new();
+                    let n = rng.urange(10, 40);
+                    let mut g = G::new(&mut rng, 2);
+                    g.oddities = false;
+                    extend_history(&mut g, &mut scratch, &mut scratch_ops, n, fx);
+                    scratch_ops.into_iter().filter(|o| is_config_verb(&o.req)).map(|o| (o.req, o.label)).collect()
+                }
+            };
+            for (request, label) in cmds {
+                let Some(t) = request.request_type.clone() else { continue };
+                let local = model.dispatch(&request).is_ok();
+                match hub_request(client, t) {
+                    Ok((st, m)) => {
+                        if (st == ok_status) != local {
+                            trouble = Some(format!("main process and model disagree on {label}: hub={st} ({m}) model_ok={local}"));
+                            rep.obs("hub:overwrite_hub_and_model_disagree", 1);
+                            break 'rounds;
+                        }
+                        rep.obs("hub:overwrite_commands_through_the_hub", 1);
+                    }
+                    Err(e) => {
+                        trouble = Some(format!("{label}: {e}"));
+                        break 'rounds;
+                    }
+                }
+            }
+        }
+        // ---- SaveState on the same path
+        match hub_request(client, RequestType::SaveState(path_s.clone())) {
+            Ok((st, _)) if st == ok_status => {}
+            Ok((_, m)) => {
+                rep.violation(
+                    "roundtrip/hub_state_file/save_state_failed",
+                    &format!("SaveState to a writable path was answered with a failure: {m}"),
+                    witness(&steps_log, json!({"round": round, "answer": m})),
+                );
+                break;
+            }
+            Err(e) => {
+                trouble = Some(format!("SaveState: {e}"));
+                break;
+            }
+        }
+        rep.obs("hub:saves_to_same_path", 1);
+        let expected = model.produce_initial_state();
+        let expected_len = expected_file_len(&model);
+        let overwrite = round > 0;
+        if let Some(prev) = prev_expected_len {
+            if expected_len < prev {
+                rep.obs("hub:overwrites_with_smaller_state", 1);
+            } else if expected_len > prev {
+                rep.obs("hub:overwrites_with_larger_state", 1);
+            }
+            if expected.requests.is_empty() {
+                rep.obs("hub:overwrites_with_empty_state", 1);
+            }
+        }
+        let smaller = prev_expected_len.is_some_and(|p| expected_len < p);
+        let suffix = if overwrite { "_after_overwrite" } else { "" };
+        // ---- (a) the bytes of the file
+        let bytes = std::fs::read(&path).unwrap_or_default();
+        let (rest_len, parsed): (usize, Vec<WorkerRequest>) = match parse_several_requests::<WorkerRequest>(&bytes) {
+            Ok((rest, reqs)) => (rest.len(), reqs),
+            Err(_) => (bytes.len(), vec![]),
+        };
+        rep.obs("hub:overwrite_files_checked_bytewise", 1);
+        let want = content_multiset(expected.requests.iter());
+        let got = content_multiset(parsed.iter());
+        let step = json!({"round": round, "change": if round == 0 { "initial LoadState".to_owned() } else { ["remove about 1/3", "remove about 5/6", "remove everything", "add and change"][plan[round - 1] as usize].to_owned() },
+            "requests_of_the_current_configuration": want.len(), "expected_file_bytes": expected_len, "previous_expected_file_bytes": prev_expected_len,
+            "file_bytes": bytes.len(), "requests_parsed_from_file": got.len(), "unparsable_trailing_bytes": rest_len, "state_sizes": state_sizes(&model)});
+        steps_log.push(step);
+        judged_any = true;
+        let mut file_finding: Option<(&'static str, String, Value)> = None;
+        if rest_len > 0 || got != want {
+            let extra_requests = got.iter().filter(|g| !want.contains(g)).count();
+            let missing_requests = want.iter().filter(|w| !got.contains(w)).count();
+            let _ = smaller;
+            let (sig, what) = if overwrite && bytes.len() > expected_len && bytes.len() <= max_prev_file_len && missing_requests == 0 {
+                ("roundtrip/hub_state_file/stale_tail_after_overwrite",
+                 format!("after SaveState on a path that held a larger earlier save, the file holds the current configuration followed by {} stale byte(s) of the old file ({} stale request(s) parse, {} trailing byte(s) do not)", bytes.len() - expected_len, extra_requests, rest_len))
+            } else {
+                (if overwrite { "roundtrip/hub_state_file/saved_file_not_the_current_configuration_after_overwrite" } else { "roundtrip/hub_state_file/saved_file_not_the_current_configuration" },
+                 format!("the file written by SaveState is not an encoding of the current configuration: {missing_requests} request(s) missing, {extra_requests} unexpected, {rest_len} unparsable trailing byte(s)"))
+            };
+            file_finding = Some((sig, what, json!({"round": round, "missing_requests": missing_requests, "unexpected_requests": extra_requests, "unparsable_trailing_bytes": rest_len,
+                "file_bytes": bytes.len(), "expected_file_bytes": expected_len,
+                "longest_earlier_file_on_this_path": max_prev_file_len,
+                "first_unexpected_request": parsed.iter().find(|w| !want.contains(&format!("{:?}", w.content))).map(|w| req_json(&w.content))})));
+        } else {
+            rep.obs("hub:saved_file_is_exactly_the_current_configuration", 1);
+        }
+        // ---- (b) LoadState of that file into a fresh main process
+        match AckHub::start(ctx, 1) {
+            Err(e) => {
+                if let Some((sig, what, detail)) = file_finding.take() {
+                    rep.violation(sig, &what, witness(&steps_log, detail));
+                }
+                trouble = Some(format!("second hub did not start: {e}"));
+                break;
+            }
+            Ok(fresh) => {
+                let back = fresh.lab.run_dir.join("read-back.json");
+                let mut loaded: Option<(i32, String)> = None;
+                let mut held: Option<ConfigState> = None;
+                let mut t2: Option<String> = None;
+                match fresh.lab.client() {
+                    Err(e) => t2 = Some(format!("client: {e}")),
+                    Ok(mut c2) => match hub_request(&mut c2, RequestType::LoadState(path_s.clone())) {
+                        Err(e) => t2 = Some(format!("LoadState: {e}")),
+                        Ok(ans) => {
+                            loaded = Some(ans);
+                            match hub_request(&mut c2, RequestType::SaveState(back.to_string_lossy().into_owned())) {
+                                Ok((st, _)) if st == ok_status => {
+                                    let b2 = std::fs::read(&back).unwrap_or_default();
+                                    if let Ok((rest, reqs)) = parse_several_requests::<WorkerRequest>(&b2) {
+                                        if rest.is_empty() {
+                                            held = Some(replay(reqs.iter().map(|w| &w.content)).state);
+                                        }
+                                    }
+                                    if held.is_none() {
+                                        t2 = Some("read-back file of the fresh hub does not parse".to_owned());
+                                    }
+                                }
+                                Ok((_, m)) => t2 = Some(format!("read-back SaveState failed: {m}")),
+                                Err(e) => t2 = Some(format!("read-back SaveState: {e}")),
+                            }
+                        }
+                    },
+                }
+                rep.obs("hub:worker_acknowledgements", fresh.acked.load(std::sync::atomic::Ordering::Relaxed));
+                for p in fresh.finish() {
+                    rep.violation(
+                        &format!("roundtrip/hub_state_file/hub_panicked@{}", p.signature().trim_start_matches("panic@")),
+                        &format!("the main process panicked while loading a saved state: {} at {}", p.message, p.location),
+                        witness(&steps_log, json!({"panic": p.message, "location": p.location})),
+                    );
+                }
+                if let Some(e) = t2 {
+                    if let Some((sig, what, detail)) = file_finding.take() {
+                        rep.violation(sig, &what, witness(&steps_log, detail));
+                    }
+                    trouble = Some(e);
+                    break;
+                }
+                if let Some((sig, what, mut detail)) = file_finding.take() {
+                    // one finding: the file is wrong; what a load of it does is its consequence
+                    let reload = match (&loaded, &held) {
+                        (Some((st, m)), _) if *st != ok_status => json!({"load_state_answer": m, "outcome": "LoadState failed"}),
+                        (Some(_), Some(h)) => {
+                            let deltas: Vec<Delta> = compare(&model, h, Mode::Loose).into_iter().filter(|d| !d.is_bucket_only()).collect();
+                            json!({"outcome": if deltas.is_empty() { "LoadState ok, configuration equal" } else { "LoadState ok, configuration DIFFERENT (stale requests replayed)" },
+                                "differences": deltas.len(), "first_difference": deltas.first().map(|d| json!({"map": d.map, "key": d.key, "kind": d.kind}))})
+                        }
+                        _ => json!({"outcome": "unknown"}),
+                    };
+                    rep.obs(&format!("hub:wrong_file:{}", reload["outcome"].as_str().unwrap_or("?").split(',').next().unwrap_or("?").replace(' ', "_")), 1);
+                    if let Some(o) = detail.as_object_mut() {
+                        o.insert("loading_this_file_into_a_fresh_main_process".to_owned(), reload);
+                    }
+                    rep.violation(sig, &what, witness(&steps_log, detail));
+                } else if let Some((st, m)) = &loaded {
+                    if *st != ok_status {
+                        rep.obs("hub:overwrite_loads_into_fresh_hub_failed", 1);
+                        rep.violation(
+                            &format!("roundtrip/hub_state_file/load_failed{suffix}"),
+                            &format!("LoadState of the file written by SaveState{} was answered with a failure: {m}", if overwrite { " over an earlier save on the same path" } else { "" }),
+                            witness(&steps_log, json!({"round": round, "answer": m})),
+                        );
+                    } else {
+                        rep.obs("hub:overwrite_loads_into_fresh_hub_ok", 1);
+                        if let Some(h) = &held {
+                            let deltas: Vec<Delta> = compare(&model, h, Mode::Loose).into_iter().filter(|d| !d.is_bucket_only()).collect();
+                            if let Some(d) = deltas.first() {
+                                rep.violation(
+                                    &format!("roundtrip/hub_state_file/state_differs{suffix}/{}/{}", d.map, d.kind),
+                                    &format!("a fresh main process that loaded the saved file holds a configuration different from the saved one: map {} key {} ({}), {} difference(s)", d.map, d.key, d.kind, deltas.len()),
+                                    witness(&steps_log, json!({"round": round, "expected_is_left": true, "difference": d.to_json(), "differences": deltas.len()})),
+                                );
+                            } else {
+                                rep.obs("hub:overwrite_reloaded_configuration_equal", 1);
+                            }
+                        }
+                    }
+                }
+            }
+        }
+        prev_expected_len = Some(expected_len);
+        max_prev_file_len = max_prev_file_len.max(bytes.len());
+    }
+    drop(client);
+    rep.obs("hub:worker_acknowledgements", hub.acked.load(std::sync::atomic::Ordering::Relaxed));
+    for p in hub.finish() {
+        rep.violation(
+            &format!("roundtrip/hub_state_file/hub_panicked@{}", p.signature().trim_start_matches("panic@")),
+            &format!("the main process panicked while saving its state: {} at {}", p.message, p.location),
+            witness(&steps_log, json!({"panic": p.message, "location": p.location})),
+        );
+    }
+    if let Some(t) = trouble {
+        if !judged_any {
+            rep.inconclusive(&format!("overwrite case: {}", t.chars().take(60).collect::<String>()));
+        } else {
+            rep.obs("hub:overwrite_cases_cut_short_by_harness_trouble", 1);
+        }
+    }
+    rep.case(case, judged_any);
+    if case - OVERWRITE_BASE < 2 {
+        rep.sample(json!({"case": case, "kind": "hub_overwrite", "rounds": steps_log}));
+    }
+}
+
 pub fn run(ctx: &Ctx) -> Report {
     let mut rep = Report::new(
         "exploration",
         "reachable ConfigStates built by (70 %) random histories of 1..60 commands over every mutating verb with valid/invalid arguments, duplicates, removals and listener patches on a collision-rich alphabet, (29 %) a field-coverage builder (every object type on IPv4 and IPv6 addresses, each optional field independently absent / present-with-default / non-default, 2-4 certificates per address) and (1 %) states holding one value around the 200 000-byte load buffer; each final state (and one intermediate state of half of the histories) goes through the four encode/replay paths and is rebuilt twice from its objects in shuffled order; a case is non-trivial when its final state holds >= 3 objects; distinct = distinct (verb, accepted) sequences",
     );
     rep.assume("path (b) has two parts: every state goes through write_requests_to_file -> whole-file parse_several_requests -> dispatch (codec level); a few hundred states per run (biased to files with one or two records of 60..400 kB at the first / early / middle / last position among 0..500 small records) are loaded by the REAL load_state of an in-process CommandHub (c09 hub lab, 1-2 scripted workers acknowledging everything) from a file written by write_requests_to_file, then read back through the real SaveState; the hub's configuration is the replay of that second file");
+    rep.assume("repeated saves: the configuration of the live hub is changed by the real client verbs (Remove*/Add*/Update*...) mirrored on a local ConfigState model; a case where hub and model disagree on the outcome of a command is abandoned and counted (hub:overwrite_hub_and_model_disagree), not judged; when the saved file itself is wrong, what loading it does (failure, or stale requests silently replayed) is recorded in that finding's witness instead of being reported separately");
     rep.assume("an empty Vec/HashMap bucket left by a removal (or by a rejected AddCertificate) holds no listener, frontend, backend or certificate: its disappearance on replay is counted (exempt:empty_bucket_not_replayed:*) and not judged, unless --opt strict_buckets=1; path (d) carries the state verbatim and is compared strictly");
     rep.assume("paths (b) and (c) are judged on their own only when the decoded command list differs from the encoded one; otherwise their replay is the replay of (a) and a difference is reported once, under 'bootstrap'");
     for k in [
@@ -1105,6 +1565,14 @@ pub fn run(ctx: &Ctx) -> Report {
         "hub:files_with_record_over_100k_not_first",
         "hub:files_with_record_over_200k",
         "hub:files_larger_than_read_buffer",
+        "hub:saves_to_same_path",
+        "hub:overwrites_with_smaller_state",
+        "hub:overwrites_with_larger_state",
+        "hub:overwrites_with_empty_state",
+        "hub:overwrite_files_checked_bytewise",
+        "hub:saved_file_is_exactly_the_current_configuration",
+        "hub:overwrite_loads_into_fresh_hub_ok",
+        "hub:overwrite_reloaded_configuration_equal",
         "rebuild_equal",
         "rejected_ops",
         "listener_patch_accepted",
@@ -1146,6 +1614,8 @@ pub fn run(ctx: &Ctx) -> Report {
     // hub cases first (few, slower): the state file through the real load_state / save_state
     let n_hub = ctx.opt_u64("hub_cases", ctx.tier.pick(300, 6_000));
     crate::common::par_cases_named(ctx, &mut rep, n_hub, "hubcase", |i, r| run_case(ctx, HUB_BASE + i, r));
+    let n_ovw = ctx.opt_u64("overwrite_cases", ctx.tier.pick(120, 2_500));
+    crate::common::par_cases_named(ctx, &mut rep, n_ovw, "hubsave", |i, r| run_case(ctx, OVERWRITE_BASE + i, r));
     let n = ctx.opt_u64("cases", ctx.tier.pick(10_000, 400_000));
     par_cases(ctx, &mut rep, n, |i, r| run_case(ctx, i, r));
     drop(gag);
